@@ -79,6 +79,10 @@ func drawCmdCase(t *simrt.Tape, name string, thorough bool) cmdCase {
 		maxN = 80
 	}
 	n := 1 + t.Choose(maxN)
+	if t.Choose(6) == 5 {
+		// enough records for many batches to be in flight at once (every worker busy)
+		n = 150 + t.Choose(200)
+	}
 	fastq := t.Choose(2) == 1
 	switch name {
 	case "obipairing":
@@ -259,6 +263,13 @@ func drawCmdCase(t *simrt.Tape, name string, thorough bool) cmdCase {
 		if t.Choose(3) == 2 {
 			c.Args = append(c.Args, "--save-discarded", "$D/discarded.fastx")
 		}
+		if t.Choose(2) == 1 {
+			// a short approximate pattern: many records match on one strand or the other, many do not
+			c.Args = append(c.Args, "--approx-pattern", []string{"acgtr", "ggnnc", "ttyaa", "catg", "wwsss"}[t.Choose(5)])
+			if t.Choose(2) == 1 {
+				c.Args = append(c.Args, "--pattern-error", "1")
+			}
+		}
 	case "obiannotate":
 		for k := t.Choose(3); k >= 0; k-- {
 			switch t.Choose(7) {
@@ -395,6 +406,10 @@ func diffOutputs(a, b map[string][]byte) string {
 
 func runC05(rc *RunCtx) {
 	t := rc.Plan
+	if t.Choose(3) == 2 {
+		c05Library(rc, t)
+		return
+	}
 	name := c05Commands[t.Choose(len(c05Commands))]
 	c := drawCmdCase(t, name, rc.Thorough())
 	nrec := 1
@@ -402,6 +417,14 @@ func runC05(rc *RunCtx) {
 		nrec += bytes.Count(f, []byte("\n>")) + bytes.Count(f, []byte("\n@"))
 	}
 	p := drawParCfg(t, nrec)
+	if t.Choose(3) == 2 {
+		// many small batches and preemption inside the workers: every worker is busy at once
+		p.BatchSize = 1 + t.Choose(3)
+		p.Yield = 2 + t.Choose(2)
+		if p.MaxCPU < 4 {
+			p.MaxCPU = 4
+		}
+	}
 	rc.Out.Sample = map[string]any{"case": c.describe(), "config": p.String(), "reference": refCfg.String()}
 	dirRef := filepath.Join(rc.Dir, fmt.Sprintf("r%d-ref", rc.Index))
 	dirTest := filepath.Join(rc.Dir, fmt.Sprintf("r%d-test", rc.Index))
@@ -479,10 +502,10 @@ func shaFiles(m map[string][]byte) string {
 func init() {
 	register(&Property{
 		ID:     "C05",
-		Random: func(tier string) int { return map[string]int{"quick": 320, "thorough": 24000}[tier] },
+		Random: func(tier string) int { return map[string]int{"quick": 500, "thorough": 24000}[tier] },
 		Run:    runC05,
 		Level:  "exploration",
-		Rule:   "each case = one generated (input, functional options) for one of obiconvert, obigrep, obiannotate, obicomplement, obicount, obicsv, obisummary, obipairing (overlapping read pairs with errors), obipcr (templates with 0-5 priming sites of each primer, on either strand), obimultiplex (reads assembled from a generated sample sheet), run twice through the real main of the command in child processes: reference configuration (max-cpu 2, batch-size 2000, lowest-id schedule, pool that never reuses) and a drawn configuration (max-cpu 1..32, batch-size 1..n..2000, scheduling policy, pool policy LIFO/FIFO/random/never with poisoning of recycled buffers, dense-yield density, chunk-buffer size, map-order permutation); every output file must be byte-identical. distinct = distinct (command, options, configuration, schedule signature); non-trivial = at least one scheduling step with >=2 runnable tasks",
+		Rule:   "two thirds of the cases = one generated (input, functional options) for one of obiconvert, obigrep, obiannotate, obicomplement, obicount, obicsv, obisummary, obipairing (overlapping read pairs with errors), obipcr (templates with 0-5 priming sites of each primer, on either strand), obimultiplex (reads assembled from a generated sample sheet), run twice through the real main of the command in child processes: reference configuration (max-cpu 2, batch-size 2000, lowest-id schedule, pool that never reuses) and a drawn configuration (max-cpu 1..32, batch-size 1..n..2000, scheduling policy, pool policy LIFO/FIFO/random/never with poisoning of recycled buffers, dense-yield density, chunk-buffer size, map-order permutation); every output file must be byte-identical; one third = library stage: a predicate built from the constructors the commands use (approximate IUPAC pattern on one or both strands, regular expressions on sequence / definition / identifier / attribute, attribute presence, lengths, boolean expressions; combined by And / Or / Not, optionally through PairedPredicat in its six modes) applied by FilterOn with 2-6 workers to 20-120 records in batches of 1-5, compared with a second instance of the predicate applied sequentially. distinct = distinct (command, options, configuration, schedule signature); non-trivial = at least one scheduling step with >=2 runnable tasks",
 		Real:   []string{"the real main body of each command (option parsing included)", "all obitools4 packages", "third-party modules", "the OS file system for inputs and outputs"},
 		Stub:   []string{"sync primitives, sync.Pool (deterministic, poisoning), goroutine scheduling", "os.Exit / logrus exit (captured)", "stdin/stdout/stderr (regular files)", "chunk-buffer constants (knob)", "Go map iteration order (tape-driven permutation)"},
 	})
